@@ -176,7 +176,7 @@ pub struct DB {
     options: DbOptions,
 
     /// A lock over the persistent (i.e. on disk) state of the database.
-    db_lock: Option<FileLock>,
+    db_lock: Option<Arc<FileLock>>,
 
     /**
     An in-memory table of key-value pairs to support quick access to recently changed values.
@@ -301,7 +301,9 @@ impl DB {
 
         log::info!("Attempting to acquire database lock.");
         let lock_file_path = file_name_handler.get_lock_file_path();
-        let db_lock = Some(options.filesystem_provider().lock_file(&lock_file_path)?);
+        let db_lock = Some(Arc::new(
+            options.filesystem_provider().lock_file(&lock_file_path)?,
+        ));
 
         let db = DB {
             options,
@@ -559,6 +561,10 @@ impl DB {
 
         let mut db_state_iterator = MergingIterator::new(db_iterators);
         let db_state = self.generate_portable_state();
+        // The iterator keeps the database lock alive. An iterator may outlive the `DB` it came
+        // from and still reads the table files of its version; if the lock were released with the
+        // `DB`, the next instance opened on the directory would collect those files as garbage.
+        let db_lock = self.db_lock.clone();
         db_state_iterator.register_cleanup_method(Box::new(move || {
             // Ensure that the version is released from the version set after use
             db_state
@@ -566,6 +572,7 @@ impl DB {
                 .lock()
                 .version_set
                 .release_version(current_version);
+            drop(db_lock);
         }));
 
         let read_sampling_seed = db_fields_guard.read_sampling_seed;
